@@ -493,6 +493,16 @@ impl Scenario for VaultScn {
                     v.push(VAct::Loan { amount: a.to_string(), script: s.clone() });
                 }
             }
+            if c07 {
+                // a repayment short by exactly the protocol fees the vault still owes the collector
+                let pending = vault_pending(w, h, false);
+                if let Some(a) = amts.iter().find(|a| fee_of(f.protocol, **a) >= 1000).or(amts.last()) {
+                    let exact = a + fee_of(f.protocol, *a) + fee_of(f.swap, *a) + fee_of(f.burn, *a);
+                    if pending > 0 && exact > pending && exact < (1u128 << 63) {
+                        v.push(VAct::Loan { amount: a.to_string(), script: vec![Step::Repay(RepayKind::Custom((exact - pending) as u64))] });
+                    }
+                }
+            }
             for (a, s) in nested_scripts {
                 v.push(VAct::Loan { amount: a.to_string(), script: s });
             }
@@ -591,6 +601,14 @@ impl Scenario for VaultScn {
                     if fee_of(f.burn, amount) > 0 {
                         cx.count("loan:burn_fee>0");
                     }
+                }
+                if c07 && r.is_ok() {
+                    // the protocol fee credited to the ledgers was really paid in by the borrower (not taken from the
+                    // vault's own funds): the vault's balance, plus whatever left for the collector, grew at least by it
+                    let credited = post.all_time - pre.all_time;
+                    cx.check("ledger.credited_fees_were_paid", post.vault_bal + (post.collector - pre.collector) >= pre.vault_bal + credited, || {
+                        format!("loan {} script {:?}: {} of protocol fees credited but the vault balance went {} -> {} (collector +{})", amount, script, credited, pre.vault_bal, post.vault_bal, post.collector - pre.collector)
+                    });
                 }
                 loan_oracles(cx, w, h, &f, amount, script, &r, &pre, &post, if self.property == "C05" { "c05:" } else { "" });
                 if r.is_ok() {
